@@ -1,0 +1,50 @@
+//go:build verif
+
+/*
+ * Licensed to the Apache Software Foundation (ASF) under one or more
+ * contributor license agreements.  See the NOTICE file distributed with
+ * this work for additional information regarding copyright ownership.
+ * The ASF licenses this file to You under the Apache License, Version 2.0
+ * (the "License"); you may not use this file except in compliance with
+ * the License.  You may obtain a copy of the License at
+ *
+ *     http://www.apache.org/licenses/LICENSE-2.0
+ *
+ * Unless required by applicable law or agreed to in writing, software
+ * distributed under the License is distributed on an "AS IS" BASIS,
+ * WITHOUT WARRANTIES OR CONDITIONS OF ANY KIND, either express or implied.
+ * See the License for the specific language governing permissions and
+ * limitations under the License.
+ */
+
+package dubbo
+
+// Verification contracts for property C07 (comment-only, tag verif): the dubbo filter hands the
+// caller's xid to the invocation under both attachment keys, and on the callee side turns the xid
+// found in the attachments (either spelling, either key) into the seata context of the invoked
+// service, unchanged and never as a Launcher. The dubbo invocation / invoker are the environment.
+
+//@ iface (protocol.Invocation).GetAttachmentWithDefaultValue
+//@   ensures true
+//@ iface (protocol.Invocation).SetAttachment
+//@   ensures true
+//@ iface (protocol.Invoker).Invoke
+//@   ensures true
+
+//@ func (*dubboTransactionFilter).Invoke
+//@   prop C07
+//@   requires ctx != nil && invocation != nil && invoker != nil
+//@   let cv := ctxvalue(ctx, tm.seataContextVariable)
+//@   let seata := cv != nil
+//@   requires seata ==> isT(cv, *tm.ContextVariable) && cv.(*tm.ContextVariable) != nil
+//@   let xid := ite(seata, ite(cv.(*tm.ContextVariable).Xid != "", cv.(*tm.ContextVariable).Xid, cv.(*tm.ContextVariable).XidCopy), "")
+//@   plet r1 := callres("GetAttachmentWithDefaultValue#1", 0)
+//@   plet r2 := ite(r1 == "" && called("GetAttachmentWithDefaultValue#2"), callres("GetAttachmentWithDefaultValue#2", 0), r1)
+//@   plet r3 := ite(r2 == "" && called("GetAttachmentWithDefaultValue#3"), callres("GetAttachmentWithDefaultValue#3", 0), r2)
+//@   plet rpcxid := ite(r3 == "" && called("GetAttachmentWithDefaultValue#4"), callres("GetAttachmentWithDefaultValue#4", 0), r3)
+//@   ensures keys-tried: callarg("GetAttachmentWithDefaultValue#1", 1) == constant.SeataXidKey && (r1 == "" ==> called("GetAttachmentWithDefaultValue#2")) && (r2 == "" ==> called("GetAttachmentWithDefaultValue#3") && callarg("GetAttachmentWithDefaultValue#3", 1) == constant.XidKey) && (r3 == "" ==> called("GetAttachmentWithDefaultValue#4"))
+//@   ensures invoke-once: called("(protocol.Invoker).Invoke#1") && !called("(protocol.Invoker).Invoke#2") && result == callres("(protocol.Invoker).Invoke#1", 0)
+//@   ensures caller-side: xid != "" ==> called("SetAttachment#2") && callarg("SetAttachment#1", 1) == constant.SeataXidKey && callarg("SetAttachment#1", 2) == box(xid, string) && callarg("SetAttachment#2", 1) == constant.XidKey && callarg("SetAttachment#2", 2) == box(xid, string) && callarg("(protocol.Invoker).Invoke#1", 1) == ctx
+//@   plet hv := ctxvalue(callarg("(protocol.Invoker).Invoke#1", 1), tm.seataContextVariable)
+//@   ensures callee-side: xid == "" && rpcxid != "" ==> isT(hv, *tm.ContextVariable) && hv.(*tm.ContextVariable) != nil && hv.(*tm.ContextVariable).Xid == rpcxid && hv.(*tm.ContextVariable).TxRole != tm.Launcher
+//@   ensures nothing-to-carry: xid == "" && rpcxid == "" ==> callarg("(protocol.Invoker).Invoke#1", 1) == ctx && !called("SetAttachment#1")
